@@ -81,10 +81,16 @@ def wire_tzids(data):
         head = _head(line)
         for part in _split_params(head)[1:]:
             if part.upper().startswith("TZID="):
-                val = part[5:]
-                if val.startswith('"') and val.endswith('"'):
-                    val = val[1:-1]
-                out.append(val)
+                # TZID=a,"b" is a list of ids
+                cur, inq = "", False
+                for ch in part[5:] + ",":
+                    if ch == '"':
+                        inq = not inq
+                    elif ch == "," and not inq:
+                        out.append(cur)
+                        cur = ""
+                    else:
+                        cur += ch
     return out
 
 
